@@ -2082,9 +2082,15 @@ impl KyroDbService for KyroDBServiceImpl {
 
         let engine = &self.state.engine;
 
-        // Fetch metadata first to enforce tenant/namespace checks without
-        // revealing existence via embedding lookup timing.
-        let internal_metadata = engine.get_metadata(global_doc_id).unwrap_or_default();
+        // Fetch the document first to enforce tenant/namespace checks without
+        // revealing existence via embedding lookup timing. Vector and metadata are read
+        // under one lock: pairing a separately fetched vector with this metadata would let a
+        // racing overwrite return the vector of one write with the metadata of another.
+        let canonical = engine.get_document_with_metadata(global_doc_id);
+        let internal_metadata = canonical
+            .as_ref()
+            .map(|(_, metadata)| metadata.clone())
+            .unwrap_or_default();
 
         if let Some(tenant) = &tenant {
             let expected = tenant.tenant_index.to_string();
@@ -2122,7 +2128,13 @@ impl KyroDbService for KyroDBServiceImpl {
         }
 
         let start = Instant::now();
-        match engine.query_with_source(global_doc_id, None) {
+        // The cache-aware lookup keeps tier accounting and access logging; the response carries
+        // the pair read above.
+        let lookup = engine.query_with_source(global_doc_id, None);
+        match canonical
+            .zip(lookup)
+            .map(|((embedding, _), (_, served_from))| (embedding, served_from))
+        {
             Some((embedding, served_from)) => {
                 let latency_ns = start.elapsed().as_nanos() as u64;
                 let latency_ms = latency_ns as f64 / 1_000_000.0;
